@@ -1,4 +1,6 @@
 import Gallia.Proofs.Lemmas.DbLog
+import Gallia.Proofs.Lemmas.DbLogMulti
+import Gallia.Proofs.Lemmas.DbTables
 import Gallia.Gen.C11Tables
 /-
   C11 — Every exchange is recorded once, in order and byte-exact, in the scan database.
@@ -12,7 +14,7 @@ import Gallia.Gen.C11Tables
   cancellation point.
 -/
 namespace Gallia.C11
-open Gallia Gallia.DbLog
+open Gallia Gallia.DbLog Gallia.DbTables
 
 /-! ### what the specification fold contains -/
 
@@ -136,35 +138,50 @@ theorem state_tracked_when_off (st : EcuState) (h : List Exchange) :
 
 /-! ### the concurrent system leaves exactly these rows -/
 
-/-- **no loss on cancellation, for every interleaving.**  Run the system from history `h` under *any* schedule of
-    producer steps, consumer steps (`get`, `commit`) and a cancellation / failure of the run at any point — between
-    two exchanges (`cancel`) or at an await inside one (`cancelIn`) — and then `disconnect()`: the database holds
-    exactly the rows of the exchanges performed up to that point, once each, in order; and those exchanges are a
-    prefix of `h` (followed, for `cancelIn`, by the interrupted exchange recorded without reply and exception). -/
-theorem no_loss_on_cancel (h : List Exchange) (sched : List Choice) (hr : Choice.retry ∉ sched) :
+/-- **exactly once and in order under every fault pattern, every interleaving, every cancellation point.**  Run the
+    system from history `h` under *any* schedule of producer steps, consumer steps (`get`, `commit`), write failures of
+    the consumer (`retry`: its `execute` raises `OperationalError`; `commitFail`: its `commit` does - any number of
+    times, for any row) and a cancellation / failure of the run at any point - between two exchanges (`cancel`) or at an
+    await inside one (`cancelIn`) - and then `disconnect()`: the database holds exactly the rows of the exchanges performed
+    up to that point, once each, in order; and those exchanges are a prefix of `h` (followed, for `cancelIn`, by the
+    interrupted exchange recorded without reply and exception). -/
+theorem rows_eq_history_under_faults (h : List Exchange) (sched : List Choice) :
     afterDisconnect (exec (Sys.init h) sched) = specRows .init 0 (exec (Sys.init h) sched).done ∧
     PrefixOrCancelled h (exec (Sys.init h) sched).done := by
   refine ⟨?_, performed_prefix h sched⟩
   rw [afterDisconnect_eq]
-  exact ((Inv.init h).exec sched hr).rows
+  exact ((Inv.init h).exec sched).rows
 
-/-- the same with write failures (`OperationalError`, the row is re-queued at the tail) at any point of the schedule:
-    still every performed exchange exactly once — no loss, no duplicate — but the order may change (witness below) -/
+/-- **no loss on cancellation, for every interleaving** (the schedules without write failures; corollary of
+    `rows_eq_history_under_faults`, kept under its old name) -/
+theorem no_loss_on_cancel (h : List Exchange) (sched : List Choice) (_hr : Choice.retry ∉ sched) :
+    afterDisconnect (exec (Sys.init h) sched) = specRows .init 0 (exec (Sys.init h) sched).done ∧
+    PrefixOrCancelled h (exec (Sys.init h) sched).done :=
+  rows_eq_history_under_faults h sched
+
+/-- with write failures at any point of the schedule: every performed exchange exactly once - no loss, no duplicate
+    (corollary of `rows_eq_history_under_faults`, which also gives the order; kept under its old name) -/
 theorem no_loss_with_retries (h : List Exchange) (sched : List Choice) :
     (afterDisconnect (exec (Sys.init h) sched)).Perm (specRows .init 0 (exec (Sys.init h) sched).done) ∧
     PrefixOrCancelled h (exec (Sys.init h) sched).done := by
-  refine ⟨?_, performed_prefix h sched⟩
-  rw [afterDisconnect_eq]
-  exact ((PInv.init h).exec sched).rows
+  have := rows_eq_history_under_faults h sched
+  exact ⟨this.1 ▸ List.Perm.refl _, this.2⟩
 
-/-- when the producer got through the whole history (whatever the consumer did meanwhile), the database holds
-    exactly one row per logged exchange of the history, in order -/
-theorem rows_eq_history_any_schedule (h : List Exchange) (sched : List Choice) (hr : Choice.retry ∉ sched)
+/-- when the producer got through the whole history - whatever the consumer did meanwhile, whichever of its writes failed
+    how often - the database holds exactly one row per logged exchange of the history, in order -/
+theorem rows_eq_history_any_faults (h : List Exchange) (sched : List Choice)
     (hall : (exec (Sys.init h) sched).todo = []) (hrun : (exec (Sys.init h) sched).stopped = false) :
     afterDisconnect (exec (Sys.init h) sched) = specRows .init 0 h := by
   have hp := ((Prog.init h).exec sched).1 hrun
   rw [hall, List.append_nil] at hp
-  rw [(no_loss_on_cancel h sched hr).1, hp]
+  rw [(rows_eq_history_under_faults h sched).1, hp]
+
+/-- when the producer got through the whole history (whatever the consumer did meanwhile), the database holds
+    exactly one row per logged exchange of the history, in order -/
+theorem rows_eq_history_any_schedule (h : List Exchange) (sched : List Choice) (_hr : Choice.retry ∉ sched)
+    (hall : (exec (Sys.init h) sched).todo = []) (hrun : (exec (Sys.init h) sched).stopped = false) :
+    afterDisconnect (exec (Sys.init h) sched) = specRows .init 0 h :=
+  rows_eq_history_any_faults h sched hall hrun
 
 /-- the canonical run (producer to the end, consumer idle until `disconnect`) -/
 theorem rows_eq_history (h : List Exchange) : afterDisconnect (runAll h) = specRows .init 0 h := by
@@ -187,13 +204,42 @@ theorem rows_eq_history (h : List Exchange) : afterDisconnect (runAll h) = specR
   refine rows_eq_history_any_schedule h _ ?_ hk.1 hk.2
   simp
 
+/-- **`join()` returns after any finite fault pattern.**  From any state of the writer with nothing in flight and a
+    consistent `join()` counter: give every queued row its own number of failing `execute` attempts and failing `commit`
+    attempts (`faults`, one pair per row); when the writer has worked through them the queue is empty, the counter is zero
+    (`join()` returns), the table holds the old rows followed by the queued rows in queue order, once each, and the number of
+    "Retrying" warnings is the number of injected failures. -/
+theorem join_returns_after_finite_faults {α : Type} (w : Writer α) (hi : w.inflight = none) (hc : w.Counted)
+    (faults : List (Nat × Nat)) (hl : faults.length = w.queue.length) :
+    let w' := w.exec (faults.flatMap fun f => rowSched f.1 f.2)
+    w'.unfinished = 0 ∧ w'.queue = [] ∧ w'.inflight = none ∧ w'.db = w.db ++ w.queue ∧
+    w'.retries = w.retries + (faults.map fun f => f.1 + f.2).sum := by
+  obtain ⟨h1, h2, h3, h4, h5⟩ := Writer.exec_drain w hi faults hl
+  refine ⟨?_, h1, h2, h3, h5⟩
+  rw [h4]
+  unfold Writer.Counted at hc
+  simp [hc, hi]
+
+/-- ... and does not return while the writes keep failing (the `TODO` in `_executor_func` / `disconnect`): failed attempts
+    never lower the counter `join()` waits for -/
+theorem join_blocks_while_writes_fail {α : Type} (w : Writer α) (r : α) (hi : w.inflight = some r) (hc : w.Counted) (k m : Nat) :
+    ((w.exec (List.replicate k .retry)).exec (List.replicate m .commitFail)).unfinished = w.unfinished ∧ 0 < w.unfinished := by
+  constructor
+  · rw [Writer.exec_retries w r hi k]
+    rcases Nat.eq_zero_or_pos m with hm | hm
+    · subst hm; simp [Writer.exec]
+    · rw [Writer.exec_commitFails _ r (by simpa using hi) m hm]
+  · unfold Writer.Counted at hc
+    simp [hc, hi]
+
 /-- `join()` returns (counter of unfinished tasks is zero) exactly when nothing is queued or in flight — under every
     schedule, write failures with re-queueing included -/
 theorem join_waits_for_all (h : List Exchange) (sched : List Choice) :
     (exec (Sys.init h) sched).unfinished = 0 ↔
       (exec (Sys.init h) sched).queue = [] ∧ (exec (Sys.init h) sched).inflight = none := by
-  have hc : Counted (exec (Sys.init h) sched) := Counted.exec (by simp [Counted, Sys.init]) sched
-  unfold Counted at hc
+  have hc : Counted (exec (Sys.init h) sched) :=
+    Counted.exec (by simp [Counted, Writer.Counted, Sys.init, Writer.empty]) sched
+  unfold Counted Writer.Counted at hc
   rw [hc]
   cases hq : (exec (Sys.init h) sched).queue <;> cases hi : (exec (Sys.init h) sched).inflight <;> simp
 
@@ -222,6 +268,263 @@ theorem nothing_after_cancel (h : List Exchange) (s1 s2 : List Choice) (hr1 : Ch
   rw [this]
   simp [step]
 
+/-! ### several producers behind the client mutex (scanner task, further scanner coroutines, cyclic tester-present task)
+
+  `mexec (MSys.init progs) sched`: any number of tasks, each with its own program of exchanges; `sched` is *any* list of
+  choices - time passing, a task entering `ECU._request`, the mutex holder's exchange ending, a cancellation delivered
+  to any task in any phase (idle, waiting for the mutex, on the wire), steps and write failures of the database writer. -/
+
+/-- **rows of several producers, every schedule.**  After `disconnect()` the table holds exactly one row per completed
+    logged call, in the order in which the calls completed (= the order in which the mutex was released, see
+    `completed_in_transmission_order`), each with the request / reply / exception bytes of its exchange and with the
+    client-side state folded over all calls completed before it - whichever task they belonged to. -/
+theorem rows_order_multi (progs : List (List Exchange)) (sched : List MChoice) :
+    afterDisconnectM (mexec (MSys.init progs) sched) = callRows .init (mexec (MSys.init progs) sched).calls :=
+  ((MRows.init progs).exec sched).rows
+
+/-- **completion order = transmission order.**  The sequence of (task, request) in the order the client mutex was granted
+    - the order of the exchanges on the wire - is the sequence of the completed calls that had been granted the mutex, in
+    completion order, followed by the one exchange that is on the wire now (if any).  So a call never completes (and never
+    writes its row) before a call that was transmitted earlier. -/
+theorem completed_in_transmission_order (progs : List (List Exchange)) (sched : List MChoice) :
+    (mexec (MSys.init progs) sched).wire =
+      ((mexec (MSys.init progs) sched).calls.filter (·.granted)).map (fun c => (c.task, c.ex.req)) ++
+        (mexec (MSys.init progs) sched).onWire :=
+  ((MLock.init progs).exec sched).wire
+
+/-- at most one task is on the wire -/
+theorem mutex_exclusive (progs : List (List Exchange)) (sched : List MChoice) (i j : Nat) (ti tj : Task) (a b : Nat)
+    (hi : (mexec (MSys.init progs) sched).tasks[i]? = some ti) (hpi : ti.phase = .holding a)
+    (hj : (mexec (MSys.init progs) sched).tasks[j]? = some tj) (hpj : tj.phase = .holding b) : i = j := by
+  have h := (MLock.init progs).exec sched
+  have h1 := h.exclusive i ti a hi hpi
+  have h2 := h.exclusive j tj b hj hpj
+  rw [h1] at h2
+  exact Option.some.inj h2
+
+/-- **rows in transmission order.**  When every completed call was logged and none was cancelled before it got the
+    mutex, the request column of the table, read in id order, followed by the request now on the wire, *is* the sequence
+    of requests in the order they were transmitted. -/
+theorem requests_in_transmission_order (progs : List (List Exchange)) (sched : List MChoice)
+    (hall : ∀ c ∈ (mexec (MSys.init progs) sched).calls, c.ex.implicitOn = true ∧ c.granted = true) :
+    (afterDisconnectM (mexec (MSys.init progs) sched)).map (·.req) ++ (mexec (MSys.init progs) sched).onWire.map (·.2) =
+      (mexec (MSys.init progs) sched).wire.map (·.2) := by
+  rw [rows_order_multi, completed_in_transmission_order]
+  generalize (mexec (MSys.init progs) sched).calls = cs at hall
+  generalize (mexec (MSys.init progs) sched).onWire = ow
+  have key : ∀ (st : EcuState) (cs : List Call), (∀ c ∈ cs, c.ex.implicitOn = true ∧ c.granted = true) →
+      (callRows st cs).map (·.req) = ((cs.filter (·.granted)).map (fun c => (c.task, c.ex.req))).map (·.2) := by
+    intro st cs
+    induction cs generalizing st with
+    | nil => intro _; rfl
+    | cons c cs ih =>
+      intro h
+      have hc := h c (by simp)
+      have := ih (nextState st c.ex) (fun c' h' => h c' (by simp [h']))
+      simp [callRows, hc.1, hc.2, this, mkRow]
+  simp [key _ cs hall]
+
+/-- the row of a call holds the client's view of the ECU state before that call: `update_state` folded over the replies
+    of all calls - of every task - completed before it -/
+theorem multi_state_is_pre_state (st : EcuState) (pre post : List Call) (c : Call) (himp : c.ex.implicitOn = true) :
+    callRows st (pre ++ c :: post) =
+      callRows st pre ++ mkRow (callState st pre) c.sendT c.doneT c.ex ::
+        callRows (nextState (callState st pre) c.ex) post := by
+  rw [callRows_append]
+  simp [callRows, himp]
+
+/-- send time not after receive time in every row, whatever the interleaving (the send time is taken before the task
+    queues on the mutex, the receive time when its exchange ends) -/
+theorem multi_send_le_recv (progs : List (List Exchange)) (sched : List MChoice) :
+    ∀ r ∈ afterDisconnectM (mexec (MSys.init progs) sched), ∀ t, r.recvT = some t → r.sendT ≤ t := by
+  rw [rows_order_multi]
+  exact callRows_times _ _ ((MTime.init progs).exec sched).calls
+
+/-- **the single-producer system is the one-task instance.**  Every schedule of the single-producer system of the first
+    part (`exec`, one scanner task) is a schedule of the several-producer system with one task (`embedSched`: a producer
+    step becomes "time passes, the task enters `ECU._request`, time passes, its exchange ends"); writer, client-side state,
+    clock and the performed exchanges coincide. -/
+theorem single_producer_is_instance (h : List Exchange) (sched : List Choice) :
+    (mexec (MSys.init [h]) (embedSched (Sys.init h) sched)).toWriter = (exec (Sys.init h) sched).toWriter ∧
+    (mexec (MSys.init [h]) (embedSched (Sys.init h) sched)).ecu = (exec (Sys.init h) sched).ecu ∧
+    (mexec (MSys.init [h]) (embedSched (Sys.init h) sched)).clock = (exec (Sys.init h) sched).clock ∧
+    (mexec (MSys.init [h]) (embedSched (Sys.init h) sched)).calls.map (·.ex) = (exec (Sys.init h) sched).done := by
+  have := (Sim.init h).exec sched
+  exact ⟨this.writer, this.ecu, this.clock, this.calls⟩
+
+/-- hence the rows the single producer leaves are those `rows_order_multi` gives for the one-task system: the old
+    `rows_eq_history_under_faults` is the single-producer case of the several-producer theorem -/
+theorem single_producer_rows_from_multi (h : List Exchange) (sched : List Choice) :
+    afterDisconnect (exec (Sys.init h) sched) =
+      callRows .init (mexec (MSys.init [h]) (embedSched (Sys.init h) sched)).calls := by
+  rw [afterDisconnect_eq, ← (single_producer_is_instance h sched).1]
+  exact rows_order_multi [h] _
+
+/-- a task cancelled while it *waits* for the mutex leaves a row without reply and exception (its `finally` runs), although
+    its request was never transmitted: the call is in `calls` with `granted = false` and not in `wire` -/
+theorem cancelled_waiter_row (s : MSys) (i : Nat) (t : Task) (t0 : Nat) (e : Exchange) (rest : List Exchange)
+    (ht : s.tasks[i]? = some t) (hs : t.stopped = false) (hp : t.phase = .waiting t0) (htd : t.todo = e :: rest) :
+    (mstep s (.cancelTask i)).calls = s.calls ++ [⟨i, { e with out := .cancelled }, t0, s.clock, false⟩] ∧
+    (mstep s (.cancelTask i)).wire = s.wire ∧
+    (mstep s (.cancelTask i)).toWriter.all =
+      s.toWriter.all ++ (if e.implicitOn then [mkRow s.ecu t0 s.clock { e with out := .cancelled }] else []) := by
+  simp only [mstep, ht, hs, hp, htd]
+  refine ⟨by simp [logCall_calls], by simp [logCall_wire], ?_⟩
+  simp [logCall_all]
+
+/-! ### the other tables of the run: run_meta, address, scan_run, discovery_*, session_transition
+
+  `texec (TSys.init db prog) sched`: `db` is whatever earlier runs left in the file (any database whose keys resolve),
+  `prog` *any* sequence of `DBHandler` API calls - in lifecycle order or not, prerequisites missing or not - and `sched` any
+  interleaving of the run task's awaited steps, a cancellation delivered at any of them (the statement already handed to the
+  connection thread is still executed, the Python-side assignment is not), and the writer task's steps and write failures. -/
+
+/-- **referential integrity, every program, every schedule, every cancellation point.**  After `disconnect()` - and also in
+    what is durable at any moment (what another reader of the file sees, and all that is left when `disconnect()` itself is
+    interrupted) - every `scan_result.run` exists in `scan_run`, every `scan_run.meta` in `run_meta`, every
+    `scan_run.address` in `address`, every `session_transition.run` in `scan_run`, every `discovery_run.meta` in `run_meta`,
+    every `discovery_result.run` / `.address` in `discovery_run` / `address`. -/
+theorem foreign_keys_resolve (db : Tables) (hdb : db.fkOk) (prog : List Op) (sched : List TChoice) :
+    (afterDisconnectT (texec (TSys.init db prog) sched)).fkOk ∧
+    (afterInterruptedDisconnectT (texec (TSys.init db prog) sched)).fkOk := by
+  have hi := (TInv.init db prog hdb).exec sched
+  refine ⟨?_, hi.fkCom⟩
+  unfold afterDisconnectT
+  apply appendResults_fk _ _ hi.fkTxn
+  intro x hx
+  unfold TSys.pending at hx
+  simp only [List.mem_append] at hx
+  rcases hx with hx | hx
+  · split at hx
+    · next r hr he => simp at hx; subst hx; exact hi.inflight _ hr
+    · simp at hx
+  · exact hi.queue x hx
+
+/-- the same spelled out for the three references the replay of C12 joins over -/
+theorem scan_result_references_resolve (db : Tables) (hdb : db.fkOk) (prog : List Op) (sched : List TChoice) :
+    let t := afterDisconnectT (texec (TSys.init db prog) sched)
+    (∀ r ∈ t.scanResult, r.2.1 ∈ t.scanRun.map (·.1)) ∧ (∀ r ∈ t.scanRun, r.2.2 ∈ t.runMeta) ∧
+    (∀ r ∈ t.sessionTransition, r.1 ∈ t.scanRun.map (·.1)) := by
+  have h := (foreign_keys_resolve db hdb prog sched).1
+  exact ⟨h.2.2.2.1, fun r hr => (h.1 r hr).1, h.2.2.2.2⟩
+
+/-- the writer task never meets a constraint violation (which it would not survive: "Database worker died", every later
+    row lost): the scan run a queued row refers to was inserted before the row was queued and nothing is ever deleted -/
+theorem writer_never_dies (db : Tables) (hdb : db.fkOk) (prog : List Op) (sched : List TChoice) :
+    (texec (TSys.init db prog) sched).writerDead = false :=
+  ((TInv.init db prog hdb).exec sched).alive
+
+/-- ids are unique in every table (and `address.url` is), whatever earlier runs left in the file -/
+theorem primary_keys_unique (db : Tables) (hdb : db.keysOk) (prog : List Op) (sched : List TChoice) :
+    (afterDisconnectT (texec (TSys.init db prog) sched)).keysOk ∧
+    (afterInterruptedDisconnectT (texec (TSys.init db prog) sched)).keysOk := by
+  have hi := (KInv.init db prog hdb).exec sched
+  exact ⟨appendResults_keys _ _ hi.txn, hi.committed⟩
+
+/-- **the tables after `disconnect()` depend only on what the run task did.**  Two schedules that agree on the run task's
+    choices (its awaited steps and where it was cancelled) - however the writer task's steps and write failures are
+    interleaved with them in either - leave exactly the same tables: same rows, same ids, same references, in every table.
+    (This is what lets the correspondence run compare the real tables with the model under an arbitrary schedule.) -/
+theorem tables_independent_of_writer_schedule (db : Tables) (hdb : db.fkOk) (prog : List Op) (s1 s2 : List TChoice)
+    (h : s1.filter TChoice.isRunTask = s2.filter TChoice.isRunTask) :
+    afterDisconnectT (texec (TSys.init db prog) s1) = afterDisconnectT (texec (TSys.init db prog) s2) := by
+  have hi := TInv.init db prog hdb
+  have e1 := (TEq.refl (TSys.init db prog)).exec hi s1
+  have e2 := (TEq.refl (TSys.init db prog)).exec hi s2
+  rw [h] at e1
+  exact (e1.trans e2.symm).afterDisconnect
+
+/-- in particular: the scan_result table after `disconnect()` is what it would be had the writer never run before
+    (every accepted row appended in call order with consecutive ids), whatever it actually did and however often it failed -/
+theorem scan_results_as_if_written_at_disconnect (db : Tables) (hdb : db.fkOk) (prog : List Op) (sched : List TChoice) :
+    afterDisconnectT (texec (TSys.init db prog) sched) =
+      afterDisconnectT (texec (TSys.init db prog) (sched.filter TChoice.isRunTask)) :=
+  tables_independent_of_writer_schedule db hdb prog sched _ (by simp [List.filter_filter])
+
+/-- a new id is larger than every id already in the table (sqlite's rowid rule), so it never collides with a row of an
+    earlier run -/
+theorem new_id_is_fresh (ids : List Nat) : nextId ids ∉ ids ∧ ∀ x ∈ ids, x < nextId ids :=
+  ⟨nextId_not_mem ids, lt_nextId ids⟩
+
+/-! ### the scanner-level switch decides what is recorded
+
+  `nothing_when_implicit_off` above speaks of `ECU.implicit_logging` at the moment of a request.  What the user of a scanner
+  switches is `UDSScanner.implicit_logging` - possibly in the constructor, before the database handler and the ECU object
+  exist.  These theorems say that, in the lifecycle as coded, the two agree at every request. -/
+
+/-- **the ECU object follows the scanner-level switch.**  Whatever the scanner assigns in its constructor (`pre`) and
+    between the opening of the database and `setup()` (`mid`): once `setup()` has created the ECU object and applied the stored
+    value, every later request - in any order with further assignments and applications - is recorded exactly when the
+    scanner-level switch is on at that moment. -/
+theorem scanner_switch_governs_recording (pre mid rest : List LEvent)
+    (hpre : ∀ e ∈ pre, ∃ v, e = .set v) (hmid : ∀ e ∈ mid, ∃ v, e = .set v) (hrest : LEvent.createEcu ∉ rest) :
+    ∀ p ∈ flagsAt Flag.init (pre ++ [.openDb] ++ mid ++ [.createEcu, .apply] ++ rest), p.1 = p.2 := by
+  intro p hp
+  rw [flagsAt_append, flagsAt_append, flagsAt_append, flagsAt_append] at hp
+  have h1 := sets_only Flag.init pre hpre
+  have h2 := sets_only ((Flag.init.run pre).run [.openDb]) mid hmid
+  simp only [h1.1, List.nil_append] at hp
+  have hdb : (((Flag.init.run pre).run [.openDb]).run mid).db = true :=
+    h2.2.1.trans (by simp [Flag.run, Flag.step])
+  have hecu0 : (Flag.init.run pre).ecu = none := h1.2.2 rfl
+  have hecu : (((Flag.init.run pre).run [.openDb]).run mid).ecu = none :=
+    h2.2.2 (by simpa [Flag.run, Flag.step] using hecu0)
+  have hsync : ((((Flag.init.run pre).run [.openDb]).run mid).run [.createEcu, .apply]).Synced := by
+    show (((((Flag.init.run pre).run [.openDb]).run mid).step .createEcu).step .apply).Synced
+    exact ⟨by simpa [Flag.step] using hdb, by simp [Flag.step]⟩
+  have hx : Flag.init.run (pre ++ [.openDb] ++ mid ++ [.createEcu, .apply]) =
+      (((Flag.init.run pre).run [.openDb]).run mid).run [.createEcu, .apply] := by
+    simp [Flag.run, List.foldl_append]
+  have hy : Flag.init.run (pre ++ [.openDb] ++ mid) = ((Flag.init.run pre).run [.openDb]).run mid := by
+    simp [Flag.run, List.foldl_append]
+  have hz : Flag.init.run (pre ++ [.openDb]) = (Flag.init.run pre).run [.openDb] := by
+    simp [Flag.run, List.foldl_append]
+  rw [hx, hy, hz, h2.1] at hp
+  simp only [flagsAt, List.nil_append, List.append_nil] at hp
+  exact flagsAt_synced _ hsync rest hrest p hp
+
+/-- **`setup()` of the working tree applies the switch before its first request.**  With the statement order of
+    `UDSScanner.setup()` regenerated from the AST: whatever the scanner assigned before (`pre` in its constructor, `mid`
+    after the database was opened), every request made by `setup()` itself (ecu_reset, the `wait_for_ecu` pings, the
+    tester-present task, the property reads) and every request of `main()` / `teardown()` afterwards (`rest`) is recorded
+    exactly when the scanner-level switch is on.  In particular a scanner that switches implicit logging off in its
+    constructor records nothing. -/
+theorem setup_requests_follow_switch (pre mid rest : List LEvent)
+    (hpre : ∀ e ∈ pre, ∃ v, e = .set v) (hmid : ∀ e ∈ mid, ∃ v, e = .set v) (hrest : LEvent.createEcu ∉ rest) :
+    ∀ p ∈ flagsAt Flag.init (pre ++ [.openDb] ++ mid ++ tokenEvents Gen.C11Tables.setupEvents ++ rest), p.1 = p.2 := by
+  intro p hp
+  have hok : appliedBeforeRequest Gen.C11Tables.setupEvents = true := by decide
+  rw [flagsAt_append, flagsAt_append, flagsAt_append, flagsAt_append] at hp
+  have h1 := sets_only Flag.init pre hpre
+  have h2 := sets_only ((Flag.init.run pre).run [.openDb]) mid hmid
+  have hdb : (((Flag.init.run pre).run [.openDb]).run mid).db = true :=
+    h2.2.1.trans (by simp [Flag.run, Flag.step])
+  have hecu0 : (Flag.init.run pre).ecu = none := h1.2.2 rfl
+  have hecu : (((Flag.init.run pre).run [.openDb]).run mid).ecu = none :=
+    h2.2.2 (by simpa [Flag.run, Flag.step] using hecu0)
+  have hy : Flag.init.run (pre ++ [.openDb] ++ mid) = ((Flag.init.run pre).run [.openDb]).run mid := by
+    simp [Flag.run, List.foldl_append]
+  have hz : Flag.init.run (pre ++ [.openDb]) = (Flag.init.run pre).run [.openDb] := by
+    simp [Flag.run, List.foldl_append]
+  have hx : Flag.init.run (pre ++ [.openDb] ++ mid ++ tokenEvents Gen.C11Tables.setupEvents) =
+      (((Flag.init.run pre).run [.openDb]).run mid).run (tokenEvents Gen.C11Tables.setupEvents) := by
+    simp [Flag.run, List.foldl_append]
+  have hs := applied_tokens _ hok _ hdb hecu
+  rw [hx, hy, hz, h1.1, h2.1] at hp
+  simp only [flagsAt, List.nil_append, List.mem_append] at hp
+  rcases hp with hp | hp
+  · exact hs.1 p hp
+  · exact flagsAt_synced _ hs.2 rest hrest p hp
+
+/-- the setter, `_apply_implicit_logging_setting`, the default of the ECU object and the order inside `entry_point()` of the
+    working tree are the modelled ones (`Flag.step`) -/
+theorem switch_anchors :
+    Gen.C11Tables.setterBody =
+      ["self._implicit_logging = value", "if self.db_handler is not None:  self._apply_implicit_logging_setting()"] ∧
+    Gen.C11Tables.applyBody = ["self.ecu.implicit_logging = self._implicit_logging"] ∧
+    Gen.C11Tables.ecuFlagDefault = "True" ∧
+    Gen.C11Tables.entryPointOrder = ["self._db_insert_run_meta", "self.run", "self._db_finish_run_meta"] := by decide
+
 /-! ### tables regenerated from the working tree -/
 
 /-- the limits the model's `classify` uses are those of the live response classes -/
@@ -248,6 +551,61 @@ theorem anchors_hold :
     `finally` of `ECU._request` has no suspension point before the row is queued (what `Choice.prod` models) -/
 theorem queue_unbounded :
     Gen.C11Tables.queueMaxsize = 0 ∧ Gen.C11Tables.insertAwaits = ["self._execute_queue.put"] := by decide
+
+/-- the `finally` of `ECU._request` awaits nothing but `insert_scan_result` (whose only await is the non-suspending `put`, see
+    `queue_unbounded`) and `update_state` (which awaits nothing); the `try` body awaits nothing but the inner `_request`, which
+    is exactly `async with self.mutex: return await self.request_unsafe(...)` on an `asyncio.Lock`; the send time is taken
+    before: "exchange ends, mutex released, row queued, state updated" is one step of the task (`MChoice.finish`) -/
+theorem finally_is_atomic :
+    Gen.C11Tables.tryAwaits = ["super()._request"] ∧
+    Gen.C11Tables.finallyAwaits = ["self.db_handler.insert_scan_result", "self.update_state"] ∧
+    Gen.C11Tables.updateStateAwaits = [] ∧ Gen.C11Tables.sendTimeBeforeTry = true ∧
+    Gen.C11Tables.requestUnderMutex = true ∧ Gen.C11Tables.mutexIsAsyncioLock = true := by decide
+
+/-- the writer task of the working tree is the modelled one: it awaits `get`, `execute`, `commit` in this order; on
+    `OperationalError` it only logs and repeats in place (inside a `while True` left by `break` after the commit, no `put`
+    back into the queue); the `execute` is skipped once it has succeeded; `task_done()` sits in the `finally` of the per-row
+    `try`; `disconnect()` is `join`, cancel and await the writer, `commit`, `close` -/
+theorem writer_retries_in_place :
+    Gen.C11Tables.writerAwaits = ["self._execute_queue.get", "self.connection.execute", "self.connection.commit"] ∧
+    Gen.C11Tables.writerOnOperationalError = ["logger.warning"] ∧ Gen.C11Tables.writerRetriesInPlace = true ∧
+    Gen.C11Tables.writerExecuteGuard = "not executed / execute; executed = True" ∧ Gen.C11Tables.writerTaskDoneInFinally = true ∧
+    Gen.C11Tables.disconnectAwaits =
+      ["self._execute_queue.join", "self._executor_task", "self.connection.commit", "self.connection.close"] := by decide
+
+/-- the foreign keys of the live `DB_SCHEMA` (read back from sqlite) are the modelled ones (`Tables.fkOk`), plus two of tables
+    the handler never writes (`ecu`, `error_log`); `connect()` switches their enforcement on -/
+theorem schema_keys_agree :
+    Gen.C11Tables.foreignKeys =
+      [ ("address", "ecu", "ecu", "id", false),
+        ("discovery_result", "address", "address", "id", true), ("discovery_result", "run", "discovery_run", "id", true),
+        ("discovery_run", "meta", "run_meta", "id", false),
+        ("error_log", "meta", "run_meta", "id", true),
+        ("scan_result", "run", "scan_run", "id", true),
+        ("scan_run", "address", "address", "id", false), ("scan_run", "meta", "run_meta", "id", false),
+        ("session_transition", "run", "scan_run", "id", true) ] ∧
+    Gen.C11Tables.uniqueColumns = [("address", "url"), ("version", "schema")] ∧
+    "PRAGMA foreign_keys = 1" ∈ Gen.C11Tables.connectPragmas := by decide
+
+/-- the API calls of the working tree are the modelled ones (`Op.micros`, `Micro.stmt`, `Micro.assign`): assertions, awaited
+    statements, assignments from `lastrowid` and commits in this order; `insert_session_transition` does not commit;
+    the queued row and the session_transition row take their run from `self.scan_run` -/
+theorem api_steps_agree :
+    Gen.C11Tables.apiSteps =
+      [ ("insert_run_meta", ["assert:connection", "execute:INSERT:run_meta", "set:meta=lastrowid", "commit"]),
+        ("complete_run_meta", ["assert:connection", "assert:meta", "execute:UPDATE:run_meta", "commit"]),
+        ("insert_scan_run", ["assert:connection", "assert:meta", "execute:INSERT-OR-IGNORE:address", "execute:INSERT:scan_run",
+                             "set:scan_run=lastrowid", "set:target=target", "commit"]),
+        ("insert_scan_run_properties_pre", ["assert:connection", "assert:scan_run", "execute:UPDATE:scan_run", "commit"]),
+        ("complete_scan_run", ["assert:connection", "assert:scan_run", "execute:UPDATE:scan_run", "commit"]),
+        ("insert_discovery_run", ["assert:connection", "assert:meta", "execute:INSERT:discovery_run",
+                                  "set:discovery_run=lastrowid", "commit"]),
+        ("insert_discovery_result", ["assert:connection", "assert:discovery_run", "execute:INSERT-OR-IGNORE:address",
+                                     "execute:INSERT:discovery_result", "commit"]),
+        ("insert_scan_result", ["assert:connection", "assert:_execute_queue", "assert:scan_run", "put"]),
+        ("insert_session_transition", ["assert:connection", "execute:INSERT:session_transition"]) ] ∧
+    Gen.C11Tables.scanResultRunColumn = "self.scan_run" ∧ Gen.C11Tables.sessionTransitionRunColumn = "self.scan_run" := by
+  decide
 
 /-- with the unbounded queue `put` never finds the queue full, in any reachable or unreachable state ... -/
 theorem put_never_suspends (s : Sys) : queueFull Gen.C11Tables.queueMaxsize s = false := by
@@ -276,9 +634,23 @@ example :
         ⟨.emphasized, ⟨3, none⟩, [0x22, 0xF1, 0x90], 4, none, none, some [0x4D]⟩,
         ⟨.implicit, ⟨3, some 1⟩, [0x3E, 0x00], 8, none, none, none⟩ ] := by decide
 
-/-- a write failure that re-queues a row at the tail *can* reorder rows (why `retry` is excluded above) -/
+/-- write failures leave the order alone: the second row's `execute` fails twice, then its `commit` once -/
 example :
-    afterDisconnect (exec (Sys.init [ex1, ex2]) [.prod, .prod, .get, .retry]) ≠ specRows .init 0 [ex1, ex2] := by decide
+    afterDisconnect (exec (Sys.init [ex1, ex2, ex4]) [.prod, .prod, .get, .commit, .prod, .get, .retry, .retry, .commitFail]) =
+      specRows .init 0 [ex1, ex2, ex4] ∧
+    (exec (Sys.init [ex1, ex2, ex4]) [.prod, .prod, .get, .commit, .prod, .get, .retry, .retry, .commitFail]).retries = 3 := by
+  decide
+
+/-- why the repair of the writer was needed (`Writer.legacyStep` is the consumer before the `fix:` commits): a failed
+    `execute` re-queued the row at the tail, behind the row of a later exchange ... -/
+example :
+    let w := (((Writer.empty.put 1).put 2).step .get).legacyStep .retry
+    w.all = [2, 1] := by decide
+
+/-- ... and a row whose `commit` had failed was executed a second time: it is in the table twice -/
+example :
+    let w := ((((Writer.empty.put 1).put 2).step .get).legacyStep .commitFail)
+    w.all = [1, 2, 1] := by decide
 
 /-- a cancellation that hits `disconnect()` itself while it waits for the queue is *not* covered by
     `no_loss_on_cancel`: the model of that path loses the queued rows (known finding `c11:rows-lost:at=cancel-join`) -/
@@ -289,5 +661,75 @@ example : afterInterruptedDisconnect (runAll [ex1, ex2]) ≠ specRows .init 0 [e
 example :
     afterDisconnect (cancelAtPut 1 (exec (Sys.init [ex1, ex4]) [.prod])) ≠ specRows .init 0 [ex1, ex4] ∧
     (cancelAtPut 1 (exec (Sys.init [ex1, ex4]) [.prod])).done = [ex1, ex4] := by decide
+
+/-! #### several producers: witnesses -/
+
+private def mx1 : Exchange := ⟨[0x10, 0x03], .ret [0x50, 0x03], false, true, 0, 0⟩
+private def mx2 : Exchange := ⟨[0x3E, 0x00], .ret [0x7E, 0x00], false, true, 0, 0⟩
+private def mx3 : Exchange := ⟨[0x22, 0xF1, 0x90], .ret [0x62, 0xF1, 0x90, 0x01], true, true, 0, 0⟩
+
+/-- three tasks: the scanner (task 0) is on the wire, the tester-present task (1) and a second scanner (2) queue behind it;
+    the tester-present task is cancelled while it waits; a write fails twice.  Rows in completion order, the state column of
+    the last row is the session set by the first exchange. -/
+example :
+    let s := mexec (MSys.init [[mx1], [mx2], [mx3]])
+      [.tick 1, .call 0, .call 1, .call 2, .tick 2, .cancelTask 1, .finish 0, .w .get, .w .retry, .w .commitFail, .tick 1, .finish 2]
+    afterDisconnectM s =
+      [ ⟨.implicit, ⟨1, none⟩, [0x3E, 0x00], 1, none, none, none⟩,
+        ⟨.implicit, ⟨1, none⟩, [0x10, 0x03], 1, some [0x50, 0x03], some 3, none⟩,
+        ⟨.emphasized, ⟨3, none⟩, [0x22, 0xF1, 0x90], 1, some [0x62, 0xF1, 0x90, 0x01], some 4, none⟩ ] ∧
+    s.wire = [(0, [0x10, 0x03]), (2, [0x22, 0xF1, 0x90])] ∧ s.retries = 2 := by decide
+
+/-- the hypotheses of `requests_in_transmission_order` are satisfiable by a run with contention -/
+example :
+    let s := mexec (MSys.init [[mx1, mx3], [mx2]]) [.call 0, .call 1, .finish 0, .call 0, .finish 1]
+    (∀ c ∈ s.calls, c.ex.implicitOn = true ∧ c.granted = true) ∧ s.calls.length = 2 ∧ s.onWire = [(0, [0x22, 0xF1, 0x90])] := by
+  decide
+
+/-- **why nothing may suspend between the release of the mutex and the `put`** (obligation `finally_is_atomic` below): if
+    task 0 were suspended there while task 1 - already queued on the mutex - transmits and completes, the rows would be in
+    the order 1, 0 although the wire saw 0, 1 -/
+example :
+    let s := finishWithGap (mexec (MSys.init [[mx1], [mx2]]) [.call 0, .call 1]) 0 [.finish 1]
+    s.wire = [(0, [0x10, 0x03]), (1, [0x3E, 0x00])] ∧
+    (afterDisconnectM s).map (·.req) = [[0x3E, 0x00], [0x10, 0x03]] := by decide
+
+/-! #### the scanner-level switch: witnesses -/
+
+/-- switched off in the constructor, on again in `main()` after two requests: (used, asked for) per request -/
+example :
+    flagsAt Flag.init ([.set false] ++ [.openDb] ++ [] ++ [.createEcu, .apply] ++ [.request, .request, .set true, .request]) =
+      [(false, false), (false, false), (true, true)] := by decide
+
+/-- why `setup()` has to apply the stored value before its first request: without it the ECU object still has its own
+    default when `setup()` sends its requests - they are recorded although the scanner had switched logging off -/
+example :
+    flagsAt Flag.init ([.set false, .openDb] ++ tokenEvents ["create-ecu", "insert_scan_run", "request", "request", "apply"]) =
+      [(true, false), (true, false)] ∧
+    appliedBeforeRequest ["create-ecu", "insert_scan_run", "request", "request", "apply"] = false := by decide
+
+/-! #### the other tables: witnesses -/
+
+/-- a lifecycle in order, on a file that already holds an earlier run (ids go on from there, the address row is reused);
+    the writer's `execute` fails once, then its `commit`; the run is cancelled before `complete_run_meta`.  `disconnect()`
+    writes the two queued rows and commits the session transition; an interrupted `disconnect()` leaves what the last
+    commit of the run task had made durable. -/
+example :
+    let db : Tables := ⟨[1], [(1, 7)], [(1, some 1, 1)], [], [], [(1, 1, 100)], [(1, 2)]⟩
+    let s := texec (TSys.init db [.runMeta, .scanRun 7, .scanResult 200, .sessionTransition 3, .scanResult 201, .completeRunMeta])
+      [.run, .run, .run, .run, .run, .run, .run, .run, .run, .get, .execFail, .execOk, .commitFail, .run, .run, .run, .run, .cancel]
+    db.fkOk ∧ db.keysOk ∧
+    afterDisconnectT s = ⟨[1, 2], [(1, 7)], [(1, some 1, 1), (2, some 1, 2)], [], [], [(1, 1, 100), (2, 2, 200), (3, 2, 201)], [(1, 2), (2, 3)]⟩ ∧
+    afterInterruptedDisconnectT s = ⟨[1, 2], [(1, 7)], [(1, some 1, 1), (2, some 1, 2)], [], [], [(1, 1, 100)], [(1, 2)]⟩ := by
+  refine ⟨?_, ?_, by decide, by decide⟩
+  · simp [Tables.fkOk, Tables.addressIds, Tables.scanRunIds, Tables.discoveryRunIds]
+  · simp [Tables.keysOk, Tables.addressIds, Tables.scanRunIds, Tables.discoveryRunIds, Tables.discoveryResultIds, Tables.scanResultIds]
+
+/-- API calls whose prerequisite is missing are refused and leave nothing dangling: a session transition and a scan result
+    before any scan run, a scan run before the run meta -/
+example :
+    let s := texec (TSys.init Tables.empty [.sessionTransition 3, .scanResult 1, .scanRun 7, .runMeta, .scanRun 7, .scanResult 2])
+      (List.replicate 14 .run)
+    afterDisconnectT s = ⟨[1], [(1, 7)], [(1, some 1, 1)], [], [], [(1, 1, 2)], []⟩ ∧ s.refused = 3 := by decide
 
 end Gallia.C11
